@@ -1,6 +1,9 @@
-(* Spec for C12: the .ico / .cur file format (ICONDIR, ICONDIRENTRY[n], then the image data).
+(* Spec for C12: the .ico file format (ICONDIR, ICONDIRENTRY[n], then the image data).
    An image is given by the first 12 bytes of its directory entry (bWidth, bHeight, bColorCount,
-   bReserved, wPlanes, wBitCount, dwBytesInRes) and its data. *)
+   bReserved, wPlanes, wBitCount, dwBytesInRes) and its data; an RT_GROUP_ICON entry is these 12 bytes
+   followed by the resource id, which is why icon groups can be reassembled by copying.
+   This is NOT the layout of cursors: a .cur entry holds the hotspot where an .ico entry holds planes and
+   bit count, and RT_GROUP_CURSOR entries differ from both - see Spec/Cur.v.  The theorems use ty = 1. *)
 From PV.Model Require Import Machine.
 
 Record ico_image := { ii_head : list N; ii_data : list N }.
@@ -12,7 +15,7 @@ Fixpoint ico_entries (imgs : list ico_image) (off : N) : list N :=
   | i :: r => ii_head i ++ le32 off ++ ico_entries r (off + lenN (ii_data i))
   end.
 Definition ico_data (imgs : list ico_image) : list N := concat (map ii_data imgs).
-(* [hdr] = the 6 bytes idReserved = 0, idType = 1 (icon) or 2 (cursor), idCount *)
+(* [hdr] = the 6 bytes idReserved = 0, idType (1 for an icon file), idCount *)
 Definition ico_header (ty : N) (n : N) : list N := le16 0 ++ le16 ty ++ le16 n.
 Definition ico_encode (ty : N) (imgs : list ico_image) : list N :=
   ico_header ty (lenN imgs) ++ ico_entries imgs (6 + 16 * lenN imgs) ++ ico_data imgs.
